@@ -18,6 +18,17 @@ def handle (line : String) : Json :=
         Json.mkObj [("out", Json.arr (runProg T ops).toArray)]
       | none => errJson .badOp
     | some "loader" => LoadEngine.run j
+    | some "hkey" =>
+      -- `_hilbert3d`: model = table extracted from the source, spec = committed reference table
+      match getArr? j "cases" with
+      | some cs =>
+        let ks (t : Hilbert.HTable) : Json := Json.arr (cs.map fun (c : Json) =>
+          match jsonToNats? c with
+          | some [x, y, z, b] => Json.num (JsonNumber.fromNat (Hilbert.key t x y z b))
+          | _ => Json.null).toArray
+        Json.mkObj [("model", ks Hilbert.Generated.table),
+                    ("spec", ks (Hilbert.HTable.ofLists Reference.hilbertNext Reference.hilbertDigit))]
+      | none => errJson .badOp
     | some "npunit" =>
       -- C10: unit returned by a numpy function on Arrays (model: as coded; spec: dimensional analysis)
       let parsed : Option (String × DType × U × List (Option U) × Rat × NpClass) := do
